@@ -262,9 +262,9 @@ static std::vector<ALayout> gAL;
 
 static const char* kNums[] = { "0", "1", "5", "2147483647", "2147483648", "4294967295", "4294967296", "9223372036854775807", "9223372036854775808",
                                "18446744073709551615", "18446744073709551616", "99999999999999999999", "-1", "+1", "0x10", "1e9", "", " 5", "5 ",
-                               "7fffffffffffffff", "ffffffffffffffff", "fffffffffffffffff", "-7fffffffffffffff", "1000000000", "3b9aca00" };
+                               "7fffffffffffffff", "ffffffffffffffff", "fffffffffffffffff", "-7fffffffffffffff", "1000000000", "3b9aca00", "-2", "-3", "-5", "-12c", "fffffffffffffffe", "fffffffffffffffd", "fffffffffffffffb", "fffffffffffffed4", "8000000000000000", "8000000000000005" };
 static const int kNNums = sizeof kNums / sizeof kNums[0];
-static const int kNFields = 7;
+static const int kNFields = 9;
 
 static Input numeric(int field, const std::string& v)
 {
@@ -309,6 +309,13 @@ static Input numeric(int field, const std::string& v)
         s    = "GET / HTTP/1.1\r\nCookie: a=b; Max-Age=" + v;
         seam = s.size();
         s += "\r\n\r\n";
+        break;
+    // (round 6) the size line of a later chunk (5 / 300 body bytes are already there)
+    case 7:
+    case 8:
+        s    = std::string("POST / HTTP/1.1\r\nTransfer-Encoding: chunked\r\n\r\n") + (field == 7 ? "5\r\nhello\r\n" : "12c\r\n" + std::string(300, 'x') + "\r\n") + v + "\r\n";
+        seam = s.size();
+        s += "hello\r\n0\r\n\r\n";
         break;
     }
     in.bytes = s;
